@@ -104,6 +104,22 @@ func (g *genState) freshIdent(t *rapid.T, allowGroup bool) (Ident, int, bool) {
 		}
 		if allowGroup && g.o.Groups && rapid.IntRange(0, grpOdds).Draw(t, "grp") == 0 {
 			id.Group = rapid.SampledFrom(groupPool).Draw(t, "group")
+			// several groups over one element type (validators and rules, handlers and
+			// middlewares): every other grouped service joins or parallels an existing group's type
+			if len(g.groups) > 0 && ty == impl && rapid.Bool().Draw(t, "sameGroupType") {
+				var gks []groupKey
+				for gk := range g.groups {
+					if !IsIface(gk.T) && !IsSliceSvc(gk.T) && gk.T != TVoid {
+						gks = append(gks, gk)
+					}
+				}
+				if len(gks) > 0 {
+					sortGroupKeys(gks)
+					ty = rapid.SampledFrom(gks).Draw(t, "groupTypeOf").T
+					impl = ty
+					id.T = ty
+				}
+			}
 			if g.closedGrp[groupKey{ty, id.Group}] {
 				continue
 			}
@@ -915,6 +931,27 @@ func genGroupBridge(t *rapid.T, regs []Reg) []Reg {
 		out = append(out, r)
 	}
 	mt := rapid.IntRange(0, NeverType-1).Draw(t, "bridgeMemberT")
+	if rapid.Bool().Draw(t, "bridgeSiblingGroup") {
+		// one more layer: a second group over the SAME element type ("rules" next to
+		// "validators") whose members hang on the chain; the members of the first group consume
+		// that sibling group. Member ordinals of the two groups coincide, their identities do not.
+		ns := rapid.IntRange(1, 2).Draw(t, "bridgeSiblings")
+		for k := 0; k < ns; k++ {
+			sl := memberLife
+			if memberLife == Scoped && rapid.Bool().Draw(t, "bridgeSiblingLong") {
+				sl = rapid.SampledFrom([]int{Singleton, Transient}).Draw(t, "bridgeSiblingLife")
+				for _, r := range out {
+					if r.Life == Scoped {
+						sl = Scoped // the chain it depends on has a scoped link
+					}
+				}
+			}
+			m := Reg{ID: nextID, Life: sl, Form: FormPlain, Outs: []OutSpec{{T: mt, Impl: mt}}, Group: "br2", UseIn: true, Deps: []DepSpec{*prev}}
+			nextID++
+			out = append(out, m)
+		}
+		prev = &DepSpec{T: mt, Group: "br2"}
+	}
 	nm := rapid.IntRange(1, 2).Draw(t, "bridgeMembers")
 	for k := 0; k < nm; k++ {
 		m := Reg{ID: nextID, Life: memberLife, Form: FormPlain, Outs: []OutSpec{{T: mt, Impl: mt}}, Group: "br", UseIn: true}
